@@ -319,7 +319,7 @@ def with_communicator(rng, opts, p=0.25):
     none of which may change what the property says."""
     if rng.random() < p:
         opts['comm'] = True
-        opts['pid'] = 'sim-pid'
+        opts['pid'] = rng.choice(['sim-pid', 'sim-pid', 7, {'__uuid__': 7}, None])
         if rng.random() < 0.4:
             opts['wrap'] = True
         if rng.random() < 0.4:
